@@ -551,6 +551,22 @@ def packet_cases(ctx, n_ego, payload_lens):
                    + [(16, sn), (16, 0)] + lpv_fields(me, *ego_view[3:]) + spv_fields(asker, *apv))
         expect("lsrep", dict(egoinp, op="ls_reply", de=list(asker) + list(apv), sn=sn), ll.sent[0] if ll.sent else None,
                ref, 35, mib_view + [sn] + ego_view + list(asker) + list(apv))
+        # the LS reply names the requester's position vector AS THE LOCATION TABLE HOLDS IT after the request was processed
+        # (10.3.7.3): a requester heard before (beacon) whose request carries an older / a newer position vector than stored
+        for tag, d in (("stored_newer", -25), ("request_newer", 40), ("request_equal", 0)):
+            asker2 = (0, 7, 0x0A0B0C0DE000 + 16 * ei + {"stored_newer": 1, "request_newer": 2, "request_equal": 3}[tag])
+            bpv = (tst - 9, ego["lat"] // 7 + 11, -ego["lon"] // 7 - 13)
+            call("lsrep_beacon", egoinp, router.gn_data_indicate, stack.beacon_bytes(asker2, *bpv))
+            rpv = (bpv[0] + d, bpv[1] + 1000, bpv[2] - 1000) if d else bpv
+            ll.sent.clear()
+            call("lsrep_" + tag, egoinp, router.gn_data_indicate, stack.ls_request_bytes(asker2, 78, rpv[0], rpv[1], rpv[2], me))
+            sn = (sn + 1) % 65535
+            exp_pv = rpv if d > 0 else bpv
+            ref = pack(basic_fields(1, 1, ltd, dflt_hl) + common_fields(0, 6, 1, 0, int(mobile), 0, dflt_hl)
+                       + [(16, sn), (16, 0)] + lpv_fields(me, *ego_view[3:]) + spv_fields(asker2, *exp_pv))
+            expect("lsrep_de_" + tag, dict(egoinp, op="ls_reply", requester_heard_before=list(bpv), request_pv=list(rpv),
+                                          de=list(asker2) + list(exp_pv), sn=sn), ll.sent[0] if ll.sent else None,
+                   ref, 35, mib_view + [sn] + ego_view + list(asker2) + list(exp_pv))
         # forwarded TSB / GBC / GUC / LS: the received packet with RHL - 1
         far = (0, 4, 0x0A0B0C0DDD00 + ei)
         fpv = (tst - 3, ego["lat"] // 5 + 7, ego["lon"] // 5 - 7)
